@@ -111,6 +111,8 @@ def step (x : S) (w : List String) : Option (S × String × List String) :=
     match BB.Exclusive.step st (.startWork t) with
     | none => rej x s!"work function called before the successor was installed (model pc {pcName (st.threads t).pc})"
     | some st' => ok (setSt x k st') ["work"]
+  | ["invoke", _] => ok x
+  | ["unanswered", c] => rej x s!"call {c} was made and returned, but no execution of its key began after it (lost call)"
   | ["fn", f, by_] => do
     let f ← f.toNat?; let b ← kv by_ "by"
     let (k, _) ← x.prog.lookup b
